@@ -10,6 +10,12 @@ goroutine (instance goroutines, main loop, drain goroutine; default and zone-awa
   3. code -> spec: harness/c11 TestRecord enumerates environment schedules depth-first on the real code (all
      configurations, including request minimisation whose held-back set is rand.Perm) and QuorumReadTrace.tla lets
      TLC decide for every recorded trace whether it is a behaviour of the specification.
+Additional modules, bound code -> spec the same way: QuorumDo.tla (legacy ReplicationSet.Do with delayed extra requests)
+and QuorumMulti.tla (DoMultiUntilQuorumWithoutSuccessfulContextCancellation, 2..3 sets).
+
+Development knobs (not used by MANIFEST commands): VERIF_TLC_WORKERS, C11_SKIP_MC=1 (skip step 1, which does not touch
+the code, in mutation runs), C11_SELFTEST=corrupt_expected|corrupt_trace|corrupt_trace_do|corrupt_trace_multi (falsify one
+expected observation / one logged field: the run must end with a VIOLATION).
 """
 import json
 import os
@@ -27,12 +33,11 @@ META = {
                   "class). The real code is driven at quiescent points only (one environment step, then run to quiescence); finer races "
                   "(select with two ready cases) are covered on the specification only. 5-6 instances / 4 zones by sampling. The multi-set "
                   "variant and legacy ReplicationSet.Do are not modelled.",
-    "technique": "TLA+ specification (QuorumRead.tla) model-checked by TLC; gen/replay (QuorumReadGen.tla) and record/validate (QuorumReadTrace.tla) conformance",
+    "technique": "TLA+ specifications (QuorumRead.tla, QuorumDo.tla, QuorumMulti.tla) model-checked by TLC; gen/replay (QuorumReadGen.tla) and "
+                 "record/validate (Quorum{Read,Do,Multi}Trace.tla) conformance",
     "design_ref": "DESIGN.md 2 C11",
 }
 
-INVS = ("TypeOK OnlySuccessful QuorumBacked ErrWhenExceeded AtMostOneCall Minimised CleanupSafe CleanupExactlyOnce "
-        "UnusedCancelled ReturnedNotCancelled PlainAllCancelled CancelJustified")
 WORKERS = int(os.environ.get("VERIF_TLC_WORKERS", "8"))
 CHUNK = 16000   # traces per TLC validation run
 
@@ -113,7 +118,7 @@ def validate(ctx, trace_path, label, module="QuorumReadTrace"):
         p = ctx.path("%s_chunk%d.ndjson" % (label, k // CHUNK))
         open(p, "w").write("\n".join(chunk) + "\n")
         r = ctx.tlc("quorumread", module, cfg=module + ".cfg", extra_files={p: "trace.ndjson"},
-                    workers=WORKERS, deadlock=False, timeout=3000, heap="6g")
+                    workers=WORKERS, deadlock=False, timeout=3000)
         ctx.require_tlc_ok(r, "trace validation " + label)
         acc = set(json.loads(x)["acc"] for x in open(r.out_path))
         for line in chunk:
@@ -165,7 +170,7 @@ def describe(t, line):
 def record_validate(ctx):
     """code -> spec"""
     if ctx.tier == "quick":
-        env = {"VERIF_NS": "[1,2,3]", "VERIF_FLAGS": "core", "VERIF_ROUNDS": 2, "VERIF_MAXZ": 3,
+        env = {"VERIF_NS": "[1,2,3]", "VERIF_FLAGS": "core", "VERIF_ROUNDS": 1, "VERIF_MAXZ": 3,
                "VERIF_SAMPLE_NS": "[4]", "VERIF_SAMPLES": 2, "VERIF_SAMPLE_MAXZ": 3}
     else:
         env = {"VERIF_NS": "[1,2,3]", "VERIF_FLAGS": "all", "VERIF_ROUNDS": 3, "VERIF_MAXZ": 3,
